@@ -12,7 +12,7 @@ class Job:
 FAM_DESC = {
     "mini": "GF(T=1,N=2,R=2,L=2,B=5)", "minie": "GF(1,2,2,2,5)+error",
     "q": "GF(T=2,N=2,R=3,L=2,B=7)", "qe": "GF(2,2,3,2,7)+error", "t1": "GF(2,2,4,3,9)", "t2": "GF(2,3,4,2,9)",
-    "cur": "curated grammars (harness/curated.hpp)",
+    "cur": "curated grammars (harness/curated.hpp)", "q3": "GF(2,2,2,3,7)", "q3e": "GF(2,2,2,3,7)+error",
 }
 
 TRUST = [
@@ -46,9 +46,10 @@ def plan(prop, tier):
                  bounds={"families": [FAM_DESC[j.args[2]] for j in jobs], "max_input_length": 4 if q else 6, "flag_vectors": 24},
                  require={"parses": 100000, "inputs_sentence": 1000, "inputs_nonsentence": 1000})
     elif prop in ("C02", "C03", "C05"):
-        fl = {"C02": ["--one", "1", "--cost", "0"], "C03": ["--one", "0", "--cost", "0", "--rec", "1"], "C05": []}[prop]
+        fl = {"C02": ["--one", "1", "--cost", "0"], "C03": ["--one", "0", "--cost", "0", "--rec", "1"], "C05": ["--rec", "1"]}[prop]
         jobs = [gram(prop, "q-vary", "c", "q", 4 if q else 5, ["--tm", "vary"] + fl),
                 gram(prop, "cur", "c", "cur", 6 if q else 8, fl, shards=4),
+                gram(prop, "q3-vary", "c", "q3", 5, ["--tm", "vary"] + fl),
                 gram(prop, "mini-asan", "c-asan", "mini", 4, ["--tm", "full", "--fresh"] + fl)]
         if not q:
             jobs += [gram(prop, "q-full", "c", "q", 4, ["--tm", "full"] + fl),
@@ -60,12 +61,15 @@ def plan(prop, tier):
                  bounds={"families": [FAM_DESC[j.args[2]] + " tm=" + (j.args[j.args.index("--tm") + 1] if "--tm" in j.args else "u0") for j in jobs], "max_input_length": 4 if q else 5},
                  require={"parses": 100000, nt: 200})
     elif prop == "C04":
-        fl = ["--cost", "0,1", "--rec", "1", "--cms", "0,1,2,3,4", "--ams", "0,1"]
-        jobs = [gram(prop, "q-vary", "c", "q", 4, ["--tm", "vary"] + fl),
-                gram(prop, "cur", "c", "cur", 6 if q else 7, ["--cost", "0,1", "--ams", "0,1"], shards=4),
-                gram(prop, "mini-asan", "c-asan", "mini", 4, ["--tm", "vary", "--fresh"] + fl)]
+        full = ["--cost", "0,1", "--rec", "1", "--cms", "0,1,2,3,4", "--ams", "0,1"]
+        jobs = [gram(prop, "q-vary", "c", "q", 4, ["--tm", "vary", "--cost", "1", "--rec", "1", "--cms", "1,3", "--ams", "0"]),
+                gram(prop, "q-u0", "c", "q", 4, ["--tm", "u0"] + full),
+                gram(prop, "cur", "c", "cur", 5 if q else 7, ["--cost", "0,1", "--ams", "0,1", "--rec", "1"], shards=NPROC),
+                gram(prop, "mini-asan", "c-asan", "mini", 4, ["--tm", "vary", "--fresh", "--cost", "0,1", "--rec", "1", "--cms", "1,3", "--ams", "0,1"])]
         if not q:
-            jobs += [gram(prop, "t1-u0", "c", "t1", 5, ["--tm", "u0"] + fl), gram(prop, "q-full", "c", "q", 4, ["--tm", "full", "--cost", "1", "--rec", "1", "--cms", "1,3"])]
+            jobs += [gram(prop, "q-vary-full", "c", "q", 4, ["--tm", "vary"] + full),
+                     gram(prop, "t1-u0", "c", "t1", 5, ["--tm", "u0", "--cost", "1", "--rec", "1", "--cms", "1,3"]),
+                     gram(prop, "q-full", "c", "q", 4, ["--tm", "full", "--cost", "1", "--rec", "1", "--cms", "1"])]
         P = dict(base, jobs=jobs, nontrivial_key="c04_cases_pruning_needed",
                  rule="grammars x translation menu x cost menus (all 1, ascending, descending, alternating 0/1, all 0) x sentences x lookahead x one_parse x cost flag x {tracking parse_free, NULL parse_free}; oracle: argmin of the reference translation costs + cost-field summation; distinct_nontrivial = cases where some translation is not minimal",
                  bounds={"max_input_length": 4 if q else 5}, require={"parses": 100000, "c04_cases_pruning_needed": 50})
@@ -85,6 +89,18 @@ def plan(prop, tier):
         P = dict(base, jobs=jobs, nontrivial_key="c13_cases_with_alt", states_key="c13_cases",
                  rule="every parse of the space under a tracking parse_alloc/parse_free pair (blocks never recycled within a case): pairing, epoch, at-most-once, reachability inside live blocks, tree unchanged after yaep_free_grammar, yaep_free_tree frees all and calls termcb once per TERM",
                  bounds={"max_input_length": 4}, require={"c13_cases": 10000})
+    elif prop == "C19":
+        jobs = []
+        keys, cap, osd, vd = (4, 23, 8, 9) if q else (6, 47, 11, 13)
+        for b in ("cont-c", "cont-cxx"):
+            for h in range(4):
+                jobs.append(Job("%s-ht%d" % (b, h), b, ["cont", "--what", "ht", "--hashfn", str(h), "--keys", str(keys), "--sizecap", str(cap)], 1))
+            jobs.append(Job(b + "-os", b, ["cont", "--what", "os", "--depth", str(osd)], 1))
+            jobs.append(Job(b + "-vlo", b, ["cont", "--what", "vlo", "--depth", str(vd)], 1))
+        P = dict(base, jobs=jobs, states_key="states", transitions_key="transitions", nontrivial_key="states",
+                 rule="explicit-state BFS over operation histories of the real containers (C and C++), state = canonical layout (hash table: size, raw counters, every slot EMPTY/DELETED/key; object stack: room, top offset, segments, top length; VLO: length, capacity), each state reached by replaying its history on a fresh object; hash table explored to a fixpoint under a slot cap with 4 hash functions (constant, identity, mod 2, *7), object stack / VLO to a depth with segment length 16 / default length 4; oracle: std::set / byte-string model after every operation, ASan on",
+                 bounds={"hash_table": {"keys": keys, "slot_cap": cap, "hash_functions": 4}, "object_stack_depth": osd, "vlo_depth": vd, "bindings": ["c", "cxx"]},
+                 require={"states": 1000, "transitions": 10000})
     else:
         return None
     return P
